@@ -269,8 +269,9 @@ class Tracer:
 
     @staticmethod
     def peptide_neighbours(bio):
-        """independent of the peptide_c / peptide_n pointers: residue -> (C of the residue bonded to its N, N of the
-        residue bonded to its C): consecutive amino-acid residues of one chain whose C and N are within 1.7 A"""
+        """independent of the peptide_c / peptide_n pointers: residue -> [C of the previous residue, N of the next residue,
+        linked to previous, linked to next].  Consecutive amino-acid residues of one chain are linked unless their C and N are
+        both there and further apart than 1.7 A (a missing atom is no evidence of a chain break)"""
         import pdb2pqr.aa as aa
         out = {}
         for chain in bio.chains:
@@ -278,10 +279,13 @@ class Tracer:
             for res in chain.residues:
                 if isinstance(res, aa.Amino) and isinstance(prev, aa.Amino):
                     c, n = prev.map.get("C"), res.map.get("N")
-                    if c is not None and n is not None and \
-                            (n.x - c.x) ** 2 + (n.y - c.y) ** 2 + (n.z - c.z) ** 2 <= 1.7 ** 2:
-                        out.setdefault(id(res), [None, None])[0] = c
-                        out.setdefault(id(prev), [None, None])[1] = n
+                    broken = c is not None and n is not None and \
+                        (n.x - c.x) ** 2 + (n.y - c.y) ** 2 + (n.z - c.z) ** 2 > 1.7 ** 2
+                    if not broken:
+                        e1 = out.setdefault(id(res), [None, None, False, False])
+                        e2 = out.setdefault(id(prev), [None, None, False, False])
+                        e1[0], e1[2] = c, True
+                        e2[1], e2[3] = n, True
                 prev = res
         return out
 
@@ -319,8 +323,8 @@ class Tracer:
                             continue
                         ref = res.reference
                         tr.addh_snapshots.append({
-                            "geo_cminus": pn.get(id(res), [None, None])[0] is not None,
-                            "geo_nplus": pn.get(id(res), [None, None])[1] is not None,
+                            "geo_cminus": pn.get(id(res), [None, None, False, False])[2],
+                            "geo_nplus": pn.get(id(res), [None, None, False, False])[3],
                             "res": _rid(res), "order": list(ref.map), "bonds": {n: list(ref.map[n].bonds) for n in ref.map},
                             "present": [a.name for a in res.atoms], "nplus": getattr(res, "peptide_n", None) is not None,
                             "cminus": getattr(res, "peptide_c", None) is not None, "amino": hasattr(res, "rebuild_tetrahedral"),
@@ -344,8 +348,8 @@ class Tracer:
                             continue
                         ref = res.reference
                         tr.repair_snapshots.append({
-                            "geo_cminus": pn.get(id(res), [None, None])[0] is not None,
-                            "geo_nplus": pn.get(id(res), [None, None])[1] is not None,
+                            "geo_cminus": pn.get(id(res), [None, None, False, False])[2],
+                            "geo_nplus": pn.get(id(res), [None, None, False, False])[3],
                             "res": _rid(res), "order": list(ref.map), "bonds": {n: list(ref.map[n].bonds) for n in ref.map},
                             "present": [a.name for a in res.atoms if ref.has_atom(a.name)], "missing": list(res.missing),
                             "nplus": getattr(res, "peptide_n", None) is not None,
